@@ -80,9 +80,15 @@ SitesS1(st) ==
       [] st.k = "ret" -> IF st.has THEN SitesE(st.e) ELSE 0
       [] st.k = "block" -> SumSeq(st.body, 1, "s")
       [] st.k = "expr" -> SitesE(st.e)
-      [] st.k \in {"break", "continue", "unreach", "enum", "blobdecl"} -> 0
+      [] st.k \in {"break", "continue", "unreach", "enum", "blobdecl", "raw"} -> 0
 
 NumSites(tops) == SumSeq(tops, 1, "s")
+(* a project: main.sy (tops) and further files <<[path, tops]>>; its sites are numbered main.sy first, then the files
+   in the order given *)
+NumSitesP(tops, files) ==
+    LET RECURSIVE G(_)
+        G(j) == IF j > Len(files) THEN 0 ELSE NumSites(files[j].tops) + G(j + 1)
+    IN NumSites(tops) + G(1)
 
 (* The erasure universe of a program with n sites of which the first np belong to the fixed prelude:
    every subset of the non-prelude sites when there are at most MaxExhaustive of them, and always: all on,
